@@ -15,6 +15,7 @@ import (
 	"mellium.im/xmpp/stanza"
 
 	"mellium.im/xmpp/verifharness/core"
+	"mellium.im/xmpp/verifharness/ctrl"
 	"mellium.im/xmpp/verifharness/stall"
 	"mellium.im/xmpp/verifharness/xmltree"
 )
@@ -47,6 +48,11 @@ type Conc struct {
 	// request: "" or result, or error (a well-formed error reply, which the
 	// Iter/Unmarshal helpers turn into an error value themselves).
 	RespType string `json:"resp_type,omitempty"`
+	// CancelAtHandover (own-request): the requester's context is cancelled on the
+	// serve loop's goroutine right after the response was handed over, before the
+	// requester has taken a step with it.  Whatever the call returns, the
+	// response must be disposed of and the requests that follow answered.
+	CancelAtHandover bool `json:"cancel_at_handover,omitempty"`
 }
 
 const ownID = "c07-own"
@@ -70,6 +76,7 @@ func genConc(r *rand.Rand, sc *Scenario, streamNS string) {
 		cc.RespPos = r.Intn(n + 1)
 		cc.Via = pick(r, "SendIQ", "SendIQElement", "IterIQ", "IterIQElement", "UnmarshalIQ", "UnmarshalIQElement")
 		cc.RespType = pick(r, "result", "error")
+		cc.CancelAtHandover = r.Intn(3) == 0
 	case "parked-send":
 		cc.Via = pick(r, "Send", "SendElement")
 		// the first request's handler writes its reply as the first thing it does
@@ -212,6 +219,17 @@ func runConc(c *core.Case, sc Scenario) {
 			err       error
 			toEnd     bool
 		}
+		reqCtx, reqCancel := context.WithCancel(ctx)
+		defer reqCancel()
+		if cc.CancelAtHandover {
+			ct := ctrl.New()
+			defer ct.Close()
+			ct.Do("serve.handoff", ownID, func() {
+				reqCancel()
+				c.Count("conc_own_request_cancelled_at_the_hand_over", 1)
+			})
+		}
+		ctx := reqCtx
 		go func() {
 			defer close(appDone)
 			c.Guard(cc.Via, func() {
@@ -339,6 +357,8 @@ func runConc(c *core.Case, sc Scenario) {
 			}
 			helper := cc.Via != "SendIQ" && cc.Via != "SendIQElement"
 			switch {
+			case cc.CancelAtHandover:
+				// either outcome (the response, or the context's error) is the call's
 			case helper && wantTyp == "error":
 				// the helpers report an error reply as an error value
 				if got.err == nil {
